@@ -18,7 +18,7 @@ if r.returncode != 0:
     sys.exit(2)
 try:
     for c in checks:
-        env = dict(os.environ, VERIF_SHRINK_S=os.environ.get('VERIF_SHRINK_S', '5'))
+        env = dict(os.environ, VERIF_SHRINK_S=os.environ.get('VERIF_SHRINK_S', '5'), VERIF_OUT='/tmp/verif-mutant-out')
         t0 = time.time()
         p = subprocess.run(['/venv/bin/python', '/verif/run_check.py', c, '--tier', os.environ.get('TIER', 'quick')],
                            capture_output=True, text=True, env=env, cwd='/verif')
